@@ -313,7 +313,7 @@ PROPS["C09"] = {
     "level": "proof",
     "technique": "Verus contracts on the real parse_coin_spend and get_puzzle_and_solution_for_coin (extracted verbatim) against a first-match spec over the generator output; on the real additions_and_removals (removal and CREATE_COIN scan per spend, loop invariants, lemma against the condition parser's CREATE_COIN rule) and get_coinspends_for_trusted_block (function contract against the list of coin spends of the generator output); native evaluation of fixed generators comparing additions_and_removals with the validated conditions for every memo/hint shape",
     "level_text": "Deductive proof for every generator output tree and coin: the lookup returns exactly the first spend whose parent id, amount and tree hash of the puzzle reveal match the coin (and fails otherwise), with parse_coin_spend accepting exactly well-formed (parent puzzle amount solution) entries. additions_and_removals (unit trusted_additions): for every spend of the output the removal recorded is the coin (parent atom, tree hash of the revealed puzzle, parsed amount) under its own coin id, and the additions recorded are exactly the CREATE_COIN scan of the spend's condition list, in order, each with the hint rule \"first element of the memo list if it is an atom of 1..=32 bytes\"; lemma_scan_agrees_with_parser proves that whenever the validating parser's rule table reads a condition as CreateCoin(ph, amount, hint) - in lenient and strict mode - the scan records the same puzzle hash, amount and hint. get_coinspends_for_trusted_block returns exactly the coin spends of the generator's output list (every entry of at least four elements, in order, nothing skipped or added, coin = (parent, tree hash of puzzle, amount), programs serialized). Whole-block agreement with full validation additionally runs CLVM and is decided on fixed generators (17 shapes) by evaluating the real code.",
-    "level_note": "The allocator a helper builds internally is named through deterministic-collaborator specs (make_allocator, node_from_bytes_backrefs, setup_generator_args, run_program as uninterpreted functions of their inputs: ASSUMED deterministic), the clvm-traits tuple decoders through shape contracts (ASSUMED). additions_and_removals' per-spend facts are loop invariants and in-body obligations (its allocator changes with every puzzle run), its function contract is the allocator-free part (every removal id is the id of its coin, every addition's parent is a removal, hints have 1..=32 bytes). SpendBundle::additions (unit bundle_additions) is proved to return, spend by spend and in order, exactly the CREATE_COIN scan of each puzzle's output under the id of the coin spent (function contract; Ok direction only - its private cost budget is approximate by design), with a lemma that its CREATE_COIN rule agrees with the validating parser's. get_coinspends_with_conditions_for_trusted_block is decided on ground instances (23 generators: no memo, hints of 0/1/3/31/32/33 bytes, pair and atom memos, extra arguments and improper terminators after the memo list); for each, additions_and_removals, get_coinspends_for_trusted_block (recovered spends re-validated through run_spendbundle) and SpendBundle::additions are compared with run_block_generator2. tree_hash_cached's contract is proved in unit tree_hash and assumed here.",
+    "level_note": "The allocator a helper builds internally is named through deterministic-collaborator specs (make_allocator, node_from_bytes_backrefs, setup_generator_args, run_program as uninterpreted functions of their inputs: ASSUMED deterministic), the clvm-traits tuple decoders through shape contracts (ASSUMED). additions_and_removals has a function contract too: what it returns is aar_all over the entries of the generator's output list - every entry, in order, nothing skipped or added, each puzzle run on the allocator the previous run left (allocators only append: ASSUMED frame `extends`, children of a handed-out node were handed out before it) - plus the allocator-free part (every removal id is the id of its coin, every addition's parent is a removal, hints have 1..=32 bytes). SpendBundle::additions (unit bundle_additions) is proved to return, spend by spend and in order, exactly the CREATE_COIN scan of each puzzle's output under the id of the coin spent (function contract; Ok direction only - its private cost budget is approximate by design), with a lemma that its CREATE_COIN rule agrees with the validating parser's. get_coinspends_with_conditions_for_trusted_block is decided on ground instances (23 generators: no memo, hints of 0/1/3/31/32/33 bytes, pair and atom memos, extra arguments and improper terminators after the memo list); for each, additions_and_removals, get_coinspends_for_trusted_block (recovered spends re-validated through run_spendbundle) and SpendBundle::additions are compared with run_block_generator2. tree_hash_cached's contract is proved in unit tree_hash and assumed here.",
     "components": [V("trusted_lookup"), V("trusted_additions"), V("bundle_additions"), N("native_trusted_paths_ground", "trusted_paths_ground")],
     "assumptions": ["tree_hash_cached contract (proved in unit tree_hash)", "clvmr Allocator accessor contracts", "clvm-traits tuple decoders (shape contracts)", "collaborators deterministic (uninterpreted result functions)", "Coin::coin_id (proved in unit int_encoders), extract_n (proved in unit drivers)"],
     "not_covered": [
